@@ -176,4 +176,12 @@ def battery(class_names, tier, seed=0):
                 if case["working_dir"] is None and "working_dir" not in cfg:
                     case["working_dir"] = "$TMP"
                 cases.append(case)
+    if "ListParameter" in class_names:
+        # a list of lists whose first element is a (valid) nested list argument carrying its own line, followed by an invalid element:
+        # the error is about the later element and must not carry the earlier element's line
+        nested = {"O": {"kind": "argument", "name": "inner", "value": {"L": [{"I": 1}, {"I": 2}]}, "lineno": 40}}
+        P = lambda c, **kw: {"cls": c, "ctor": kw}
+        for bad in ({"S": "x"}, {"I": 3}, {"L": [{"S": "y"}]}):
+            cases.append({"cls": "ListParameter", "ctor": {"value_type": P("ListParameter", value_type=P("NumberParameter"))}, "value": {"L": [nested, bad]},
+                          "commands": COMMANDS, "working_dir": "$TMP", "make_files": ["present.txt"]})
     return cases
